@@ -248,7 +248,7 @@ TList == <<
     TRUE, <<>>) @@ [inter |-> <<[name |-> "Both", of |-> <<"Base">>], [name |-> "Deep", of |-> <<"Base", "Extra">>]>>]
 >>
 
-AllCat == [i \in DOMAIN Catalogue |-> Catalogue[i] @@ [foreign |-> <<>>]] \o XList \o TList
+AllCat == [i \in DOMAIN CoreCatalogue |-> CoreCatalogue[i] @@ [foreign |-> <<>>]] \o XList \o TList
 
 (* ------------------ the large catalogue the thorough tier DRAWS from (tlc -simulate, seeded) ------------------ *)
 \* every leaf kind (constraint kinds on ints and floats of several widths, inclusive and exclusive, one- and two-sided)
